@@ -549,7 +549,7 @@ def wrap_named(rng, leaf, ty, names, allow_catch=False, depth=2):
         else:
             p = wrap("parse", p, menu=0, txt="nope") if rng.random() < 0.3 else wrap("guard", p, menu=3, msg="must be non-empty")
     choice = rng.choice(["bare", "optional", "many", "some", "fallback", "count", "last", "optional", "many",
-                         "fallback-with", "collect"])
+                         "fallback-with", "collect", "fallback"])
     catch = allow_catch and rng.random() < 0.15
     if choice == "bare":
         pass
@@ -574,7 +574,7 @@ def wrap_named(rng, leaf, ty, names, allow_catch=False, depth=2):
             v = type_sample_val(rng, ty) if leaf["k"] == "arg" and "parse" not in p["k"] else "unit"
             if leaf["k"] == "arg" and p["k"] == "parse" and p["menu"] == 0:
                 v = vnum(0)
-            p = wrap("fallback", p, v=v, show=rng.random() < 0.3)
+            p = wrap("fallback", p, v=v, show=rng.random() < 0.6)    # display_fallback: Meta::Suffix around the item
     elif choice == "fallback-with":
         if not (leaf["k"] == "flag" and leaf["absent"] is not None):
             if rng.random() < 0.8:
